@@ -154,67 +154,86 @@ Proof. exact (contract_sane heapq heapq_contract). Qed.
 Lemma sev_key_key_sev : forall k, sev_key (key_sev k) = k.
 Proof. intros [t n i]. unfold sev_key, key_sev. cbn [e_time e_prio e_id k_time k_nprio k_id]. rewrite Z.opp_involutive. reflexivity. Qed.
 
-Ltac unf_keys := unfold sev_key, gen_SimEvent_time, gen_SimEvent_priority, gen_SimEvent_id in *.
+(* --- the proofs below do not depend on the SHAPE of the generated bodies (nested if / guard clause,
+   conditional expression, negated test, a test on the length or on the list itself, count or `in`,
+   helpers translated at the call site): every definition is unfolded, the ways of asking "is there an
+   equal entry" are brought to [memk], the list is split into empty / non-empty and every remaining
+   test is decided by case analysis. *)
+Lemma count_pos_memk : forall k l, Nat.ltb 0 (countk k l) = memk k l.
+Proof. exact countk_memk. Qed.
+Lemma count_ge1_memk : forall k l, Nat.leb 1 (countk k l) = memk k l.
+Proof. intros k l. rewrite <- countk_memk. destruct (countk k l); reflexivity. Qed.
+Lemma count_eq0_memk : forall k l, Nat.eqb (countk k l) 0 = negb (memk k l).
+Proof. intros k l. rewrite <- countk_memk. destruct (countk k l); reflexivity. Qed.
+Lemma count_0eq_memk : forall k l, Nat.eqb 0 (countk k l) = negb (memk k l).
+Proof. intros k l. rewrite <- countk_memk. destruct (countk k l); reflexivity. Qed.
+Lemma memk_nil : forall k, memk k [] = false.
+Proof. reflexivity. Qed.
+
 Ltac brk_match :=
   match goal with
   | |- context [match ?x with _ => _ end] =>
     lazymatch x with context [match _ with _ => _ end] => fail | _ => destruct x eqn:? end
   end.
-
-(* the values the query methods answer (used where another method calls them) *)
-Lemma gen_size_val : forall L h, gen_EventListHeap_size L h = MOk h (length h).
-Proof. intros L h. destruct h; reflexivity. Qed.
-Lemma gen_is_empty_val : forall L h, gen_EventListHeap_is_empty L h = MOk h (Nat.eqb (length h) 0).
-Proof. intros L h. destruct h; reflexivity. Qed.
-Lemma gen_contains_val : forall L h e, gen_EventListHeap_contains L h e = MOk h (impl_contains h (sev_key e)).
-Proof. intros L h e. destruct h; reflexivity. Qed.
+Ltac unf_all :=
+  cbv beta iota zeta delta
+    [gen_EventListHeap___init__ gen_EventListHeap_size gen_EventListHeap_is_empty gen_EventListHeap_add
+     gen_EventListHeap_contains gen_EventListHeap_peek_first gen_EventListHeap_pop_first
+     gen_EventListHeap_remove gen_EventListHeap_clear
+     gen_SimEvent_time gen_SimEvent_priority gen_SimEvent_id sev_key
+     impl_new impl_add impl_remove impl_pop_first impl_peek_first impl_contains_op impl_size impl_is_empty
+     impl_clear impl_step impl_contains mbind lower out_none negb andb orb].
+(* a non-empty list from which the library pops nothing: excluded by the hypothesis on hpop *)
+Ltac pop_contra :=
+  match goal with
+  | Hs : forall h, hpop ?L h = None -> h = [], E : hpop ?L (_ :: _) = None |- _ =>
+    exfalso; specialize (Hs _ E); discriminate Hs
+  end.
+Ltac el_solve :=
+  unf_all;
+  rewrite ?count_pos_memk, ?count_ge1_memk, ?count_eq0_memk, ?count_0eq_memk;
+  try match goal with h : list key |- _ => destruct h as [| ? ?] end;
+  cbn [length Nat.eqb Nat.ltb Nat.leb];
+  rewrite ?memk_nil;
+  cbv beta iota delta [negb andb orb];
+  repeat (brk_match; cbv beta iota delta [negb andb orb]);
+  try reflexivity; try congruence; try pop_contra.
 
 Theorem gen_EventListHeap_init_eq : forall L, hheapify L [] = [] ->
   lower out_none (gen_EventListHeap___init__ L) = Some (impl_new, OutNone).
-Proof. intros L H. unfold gen_EventListHeap___init__. cbv zeta. rewrite ?H. reflexivity. Qed.
+Proof. intros L H. unf_all. rewrite ?H. el_solve. Qed.
 
 Theorem gen_EventListHeap_size_eq : forall L h,
   lower OutNat (gen_EventListHeap_size L h) = Some (impl_size L h).
-Proof. intros L h. destruct h; reflexivity. Qed.
+Proof. intros L h. el_solve. Qed.
 
 Theorem gen_EventListHeap_is_empty_eq : forall L h,
   lower OutBool (gen_EventListHeap_is_empty L h) = Some (impl_is_empty L h).
-Proof. intros L h. destruct h; reflexivity. Qed.
+Proof. intros L h. el_solve. Qed.
 
 Theorem gen_EventListHeap_add_eq : forall L h e,
   lower out_none (gen_EventListHeap_add L h e) = Some (impl_add L h (sev_key e)).
-Proof. intros L h e. reflexivity. Qed.
+Proof. intros L h e. unf_all. reflexivity. Qed.
 
 Theorem gen_EventListHeap_contains_eq : forall L h e,
   lower OutBool (gen_EventListHeap_contains L h e) = Some (impl_contains_op L h (sev_key e)).
-Proof. intros L h e. destruct h; reflexivity. Qed.
+Proof. intros L h e. el_solve. Qed.
 
 Theorem gen_EventListHeap_peek_first_eq : forall L h,
   lower OutKey (gen_EventListHeap_peek_first L h) = Some (impl_peek_first L h).
-Proof. intros L h. destruct h; reflexivity. Qed.
+Proof. intros L h. el_solve. Qed.
 
 Theorem gen_EventListHeap_pop_first_eq : forall L, (forall h, hpop L h = None -> h = []) ->
   forall h, lower OutKey (gen_EventListHeap_pop_first L h) = Some (impl_pop_first L h).
-Proof.
-  intros L Hs h. unfold gen_EventListHeap_pop_first. rewrite ?gen_is_empty_val.
-  unfold impl_pop_first, impl_step. cbv beta iota delta [mbind].
-  destruct h as [| x r]; [reflexivity |]. cbn [length Nat.eqb].
-  destruct (hpop L (x :: r)) as [[y h'] |] eqn:E; [reflexivity |].
-  exfalso. specialize (Hs _ E). discriminate Hs.
-Qed.
+Proof. intros L Hs h. el_solve. Qed.
 
 Theorem gen_EventListHeap_remove_eq : forall L h e,
   lower OutBool (gen_EventListHeap_remove L h e) = Some (impl_remove L h (sev_key e)).
-Proof.
-  intros L h e. unfold gen_EventListHeap_remove. rewrite ?gen_contains_val.
-  unfold impl_remove, impl_step. cbv beta iota zeta delta [mbind].
-  rewrite ?impl_contains_memk, ?countk_memk. unf_keys.
-  repeat brk_match; try reflexivity; try congruence.
-Qed.
+Proof. intros L h e. el_solve. Qed.
 
 Theorem gen_EventListHeap_clear_eq : forall L h,
   lower out_none (gen_EventListHeap_clear L h) = Some (impl_clear L h).
-Proof. intros L h. destruct h; reflexivity. Qed.
+Proof. intros L h. el_solve. Qed.
 
 (* ---------------------------------------------------------------------- *)
 (* one operation, a whole history                                          *)
